@@ -119,7 +119,7 @@ pub fn replay_market(doc: &Value) -> i32 {
 pub fn c05(ctx: &Ctx) -> i32 {
     let spec = c05_book_spec(ctx.tier);
     let out = run_book_spec(ctx, &spec);
-    let espec = EnvSpec { check: "c05", flags: E_OVERFULL, env_types: all_types(), sessions: ctx.tier.pick(800, 60_000), max_steps: 25, toggle_rate: 0.03, offgrid_rate: 0.0 };
+    let espec = EnvSpec { check: "c05", flags: E_OVERFULL, env_types: all_types(), sessions: ctx.tier.pick(5000, 150_000), max_steps: 25, toggle_rate: 0.03, offgrid_rate: 0.0 };
     let eout = run_env_spec(ctx, &espec);
     let c = &out.census;
     let e = &eout.census;
@@ -223,7 +223,7 @@ pub fn c07_trunc_child(tier: Tier, seed: u64, result_path: &str) -> i32 {
     let ctx_threads = std::thread::available_parallelism().map(|n| n.get()).unwrap_or(4);
     let scratch = format!("{}.scratch", result_path);
     std::fs::create_dir_all(&scratch).ok();
-    let n_files = tier.pick(48, 1600);
+    let n_files = tier.pick(96, 2400);
     let next = AtomicUsize::new(0);
     let res = Mutex::new((0u64, 0u64, 0u64, Vec::<Value>::new(), 0u64));
     std::thread::scope(|s| {
@@ -287,13 +287,13 @@ pub fn c07(ctx: &Ctx) -> i32 {
         mons: M_RELOAD,
         policy: TiePolicy::StopOnTie,
         exh: vec![],
-        rnd: vec![(p, ctx.tier.pick(1500, 60_000))],
+        rnd: vec![(p, ctx.tier.pick(8000, 150_000))],
         nontrivial: |c| c.forks > 0 && c.fork_comparisons > 1,
         nontrivial_rule: "at least one reloaded copy was created and then driven in lock-step with the original",
     };
     let mut out = run_book_spec(ctx, &spec);
     // part B: markets
-    let mout = run_market_spec(ctx, "c07", MK_RELOAD, &[0, 1, 2, 3, 4, 5], ctx.tier.pick(600, 30_000), 120);
+    let mout = run_market_spec(ctx, "c07", MK_RELOAD, &[0, 1, 2, 3, 4, 5], ctx.tier.pick(3000, 80_000), 120);
     // part C: truncation in a child process
     let result_path = format!("{}/trunc-result.json", ctx.scratch);
     let exe = std::env::current_exe().unwrap();
@@ -359,8 +359,8 @@ pub fn c07(ctx: &Ctx) -> i32 {
 pub fn c12(ctx: &Ctx) -> i32 {
     let spec = c12_book_spec(ctx.tier);
     let mut out = run_book_spec(ctx, &spec);
-    let mout = run_market_spec(ctx, "c12", MK_GRID, &[0, 1, 2, 3, 4, 5], ctx.tier.pick(500, 20_000), 120);
-    let espec = EnvSpec { check: "c12", flags: E_GRID, env_types: all_types(), sessions: ctx.tier.pick(400, 20_000), max_steps: 15, toggle_rate: 0.03, offgrid_rate: 0.15 };
+    let mout = run_market_spec(ctx, "c12", MK_GRID, &[0, 1, 2, 3, 4, 5], ctx.tier.pick(4000, 80_000), 120);
+    let espec = EnvSpec { check: "c12", flags: E_GRID, env_types: all_types(), sessions: ctx.tier.pick(3000, 80_000), max_steps: 15, toggle_rate: 0.03, offgrid_rate: 0.15 };
     let eout = run_env_spec(ctx, &espec);
     // accept/reject clause for arbitrary u32 prices and large ticks (no level getters consulted)
     let mut rng = Sm::derive(ctx.seed, 0xC12);
@@ -415,8 +415,8 @@ pub fn c12(ctx: &Ctx) -> i32 {
 pub fn c13(ctx: &Ctx) -> i32 {
     let spec = c13_book_spec(ctx.tier);
     let mut out = run_book_spec(ctx, &spec);
-    let mout = run_market_spec(ctx, "c13", MK_FLAG, &[0, 1, 2, 3, 4, 5], ctx.tier.pick(500, 20_000), 150);
-    let espec = EnvSpec { check: "c13", flags: E_FLAG | E_STEP, env_types: all_types(), sessions: ctx.tier.pick(500, 30_000), max_steps: 25, toggle_rate: 0.25, offgrid_rate: 0.0 };
+    let mout = run_market_spec(ctx, "c13", MK_FLAG, &[0, 1, 2, 3, 4, 5], ctx.tier.pick(4000, 80_000), 150);
+    let espec = EnvSpec { check: "c13", flags: E_FLAG | E_STEP, env_types: all_types(), sessions: ctx.tier.pick(4000, 100_000), max_steps: 25, toggle_rate: 0.25, offgrid_rate: 0.0 };
     let eout = run_env_spec(ctx, &espec);
     let c = &out.census;
     let mut violations = std::mem::take(&mut out.violations);
@@ -443,8 +443,8 @@ pub fn c13(ctx: &Ctx) -> i32 {
 }
 
 pub fn c14(ctx: &Ctx) -> i32 {
-    let mout = run_market_spec(ctx, "c14", MK_ASSET, &[0, 1, 2, 3, 4, 5], ctx.tier.pick(2500, 120_000), 200);
-    let espec = EnvSpec { check: "c14", flags: E_ASSET | E_STEP, env_types: multi_types(), sessions: ctx.tier.pick(1200, 80_000), max_steps: 25, toggle_rate: 0.05, offgrid_rate: 0.0 };
+    let mout = run_market_spec(ctx, "c14", MK_ASSET, &[0, 1, 2, 3, 4, 5], ctx.tier.pick(20_000, 400_000), 200);
+    let espec = EnvSpec { check: "c14", flags: E_ASSET | E_STEP, env_types: multi_types(), sessions: ctx.tier.pick(10_000, 250_000), max_steps: 25, toggle_rate: 0.05, offgrid_rate: 0.0 };
     let eout = run_env_spec(ctx, &espec);
     let m = &mout.census;
     let mut violations = mout.violations;
@@ -612,27 +612,25 @@ fn shuffle_step<E: SimEnv>(env: &mut E, xr: &mut Xoroshiro128StarStar, rng: &mut
         }
     }
     env.do_step(xr);
-    let mut pos = vec![usize::MAX; n];
-    let mut seen = vec![false; n];
+    // processed position = rank of the instruction's time-stamp within the batch (C15 does not
+    // demand particular time-stamp values — that is C08's business — only an observable order)
+    let mut times: Vec<u64> = Vec::with_capacity(n);
     for (k, (a, id, is_cancel)) in items.iter().enumerate() {
         let o = env.book(*a).order(*id);
-        let t = if *is_cancel { o.end } else { o.arr };
         if *is_cancel && o.status != CANCELLED {
-            return Err(format!("cancel of active order ({}, {}) not applied: {:?}", a, id, o));
+            return Err(format!("unobservable: cancel of active order ({}, {}) left no time-stamp: {:?}", a, id, o));
         }
         if !*is_cancel && o.status == NEW {
-            return Err(format!("new order ({}, {}) not placed by the step", a, id));
+            return Err(format!("unobservable: new order ({}, {}) (instruction {}) was not placed by the step", a, id, k));
         }
-        if t < start || t >= start + n as u64 {
-            return Err(format!("instruction {} processed at {} outside [start, start+n) with start {} n {}", k, t, start, n));
-        }
-        let p = (t - start) as usize;
-        if seen[p] {
-            return Err(format!("two instructions processed at position {}", p));
-        }
-        seen[p] = true;
-        pos[k] = p;
+        times.push(if *is_cancel { o.end } else { o.arr });
     }
+    let mut sorted = times.clone();
+    sorted.sort();
+    if sorted.windows(2).any(|w| w[0] == w[1]) {
+        return Err(format!("unobservable: two instructions carry the same time-stamp {:?} (start {})", times, start));
+    }
+    let pos: Vec<usize> = times.iter().map(|t| sorted.binary_search(t).unwrap()).collect();
     Ok((pos, used_mixed))
 }
 
@@ -679,7 +677,7 @@ fn shuffle_worker<E: SimEnv>(seed: u64, work: &[(usize, u64)], t: &mut ShuffleTa
                                         fails.push(("generator_state_depends_on_contents".into(), format!("n={}", n)));
                                     }
                                 }
-                                Err(e) => fails.push(("step_misapplied".into(), e)),
+                                Err(e) => fails.push(("unobservable".into(), e)),
                             }
                             // replay: identical state and contents => identical permutation
                             let mut env3 = E::create(7, &ticks, step_size, true);
@@ -694,7 +692,7 @@ fn shuffle_worker<E: SimEnv>(seed: u64, work: &[(usize, u64)], t: &mut ShuffleTa
                         }
                     }
                     Err(e) => {
-                        fails.push(("step_misapplied".into(), e));
+                        fails.push(("unobservable".into(), e));
                         return;
                     }
                 }
@@ -759,7 +757,8 @@ pub fn c15(ctx: &Ctx) -> i32 {
     });
     let (t, fails) = merged.into_inner().unwrap();
     let mut violations: Vec<Violation> = Vec::new();
-    for (kind, detail) in fails.iter().take(3) {
+    let unobservable: Vec<&(String, String)> = fails.iter().filter(|f| f.0 == "unobservable" || f.0 == "panic_in_step").collect();
+    for (kind, detail) in fails.iter().filter(|f| f.0 != "unobservable" && f.0 != "panic_in_step").take(3) {
         violations.push(Violation { signature: format!("C15:shuffle:{}", kind), summary: format!("shuffle / {}: {}", kind, truncate(detail, 500)), replay: json!({"kind": "c15", "tier": ctx.tier.name(), "seed": ctx.seed, "failure": {"kind": kind, "detail": detail}}) });
     }
     // number of cells tested
@@ -823,13 +822,19 @@ pub fn c15(ctx: &Ctx) -> i32 {
     for h in &t.distinct {
         d.add(*h);
     }
-    let inconclusive = floors(&[
+    let mut inconclusive = None;
+    if let Some(u) = unobservable.first() {
+        // positions could not be read off the time-stamps: nothing can be said about the shuffle
+        inconclusive = Some(format!("processed positions not observable: {}", truncate(&u.1, 300)));
+        violations.clear();
+    }
+    let inconclusive = inconclusive.or(floors(&[
         ("steps", t.steps, 1_000_000),
         ("mixed_steps", t.mixed_steps, 10_000),
         ("multi_asset_steps", t.multi_asset_steps, 100_000),
         ("content_independence_checks", t.content_checks, 1000),
         ("replay_checks", t.replay_checks, 1000),
-    ]);
+    ]));
     let sample_perm: Vec<Value> = (2..=4).map(|n| json!({"n": n, "permutation_counts": t.perm[n]})).collect();
     let cov = json!({
         "evaluations": t.steps,
